@@ -1,5 +1,100 @@
-"""C07 type-level part (fixtures + generator templates). Filled in once the fixture family exists."""
+"""C07 type-level part: atomicity constants at every skip position of derive output (kind-nesting fixture family),
+the skip type alias, and which rule kinds get the skipping full-parse wrapper."""
+from .. import facts, nodes, tt, edt, classes
+
+PN = "pest_typed::predefined_node::"
 
 
-def run(ctx, fs):
-    pass
+def expected_skip_type(skip, module):
+    r = module + "::rules_impl::rules::"
+    ws = "%sWHITESPACE<'i, 0>" % r
+    cm = "%sCOMMENT<'i, 0>" % r
+    if skip == "both":
+        return PN + "repetition::AtomicRepeat<pest_typed::choices::choice2::Choice2<%s, %s>>" % (ws, cm)
+    if skip == "ws":
+        return PN + "repetition::AtomicRepeat<%s>" % ws
+    if skip == "cm":
+        return PN + "repetition::AtomicRepeat<%s>" % cm
+    return PN + "Empty<'i>"
+
+
+def run(ctx, fs_unused=None):
+    unit = "fx_kinds3" if ctx.tier == "thorough" else "fx_kinds2"
+    fs = facts.load("core", unit)
+    world = nodes.World(fs, ["pest_typed", unit])
+    ct = tt.ClassTrees(world)
+    ex = tt.load_expect(unit)
+    kconst = ex["kconst"]
+    fxc = fs[unit]
+    ctx.analysed["fixtures"] = "%s: %d grammars (every nesting of the five rule kinds to depth %d x four WHITESPACE/COMMENT definitions)" % (
+        unit, len(ex["modules"]), ex["depth"])
+    rc = ctx.rule("R07-CONST", "in every grammar of the kind-nesting family, every Skipped<_,_,K>, every repetition and every rule reference inside "
+                               "rule r carries K = 0 (atomic / compound-atomic), 1 (non-atomic) or INHERITED (normal / silent) according to r's own kind")
+    rs = ctx.rule("R07-SKIPTY", "generics::Skipped<'i> is AtomicRepeat over WHITESPACE<'i,0> / COMMENT<'i,0> (or Empty) according to which are defined, "
+                                "and it is the skip type at every skip position and of every full-parse wrapper")
+    rk = ctx.rule("R07-KIND", "derive output: the full-parse wrapper skips before EOI exactly for normal / silent / non-atomic rules")
+    n_pos = 0
+    for mod, info in sorted(ex["modules"].items()):
+        module = "%s::%s" % (unit, mod)
+        fx = tt.Fixture(fxc, module)
+        # skip alias
+        al = fxc.item(module + "::generics::Skipped")
+        want_skip = expected_skip_type(info["skip"], module)
+        if al is None or "alias_of" not in al:
+            rs.violate(mod, "generics::Skipped alias missing")
+            continue
+        got_skip = fxc.tys(al["alias_of"])
+        if got_skip == want_skip:
+            rs.inst(mod + ": alias", fxc.loc(al.get("sp")), "ok", {"Skipped": got_skip.replace(module + "::rules_impl::rules::", "")})
+        else:
+            rs.violate(mod + ": alias", "generics::Skipped is %s, expected %s" % (got_skip, want_skip), fxc.loc(al.get("sp")))
+        for r, kind in sorted(info["rules"].items()):
+            t = fx.inner_type(r)
+            key = "%s::%s (%s)" % (mod, r, kind)
+            if t is None:
+                rc.violate(key, "rule struct has no TypedNode impl")
+                continue
+            sk = []
+            ct.tree(fx, t, sk)
+            want = kconst[kind]
+            bad = [s for s in sk if s[0] == "skip" and s[1] != want] + [s for s in sk if s[0] == "ref" and s[1] not in ("EOI",) and s[2] != want]
+            n_pos += len(sk)
+            if bad:
+                rc.violate(key, "skip / reference positions carry %s, the rule's kind requires %s" % (sorted(set(str(b[1:]) for b in bad)), want),
+                           fxc.loc(fx.rules[r].get("sp")))
+            elif not sk:
+                rc.violate(key, "no skip position found in a rule that has a sequence and a repetition (type tree not understood)")
+            else:
+                rc.inst(key, fxc.loc(fx.rules[r].get("sp")), "ok", {"positions": len(sk), "K": want})
+            # skip type at each position
+            import re as _re
+            nl = lambda x: _re.sub(r"'\w+", "'_", x or "")
+            wrong = [s for s in sk if s[0] == "skip" and nl(s[2]) != nl(want_skip)]
+            if wrong:
+                rs.violate(key, "a skip position uses %s instead of generics::Skipped" % wrong[0][2])
+            # wrapper
+            it = fx.impl_item(nodes.PTN_TRAIT, r)
+            if it is None:
+                rk.violate(key, "no ParsableTypedNode impl")
+                continue
+            im = nodes.Impl(fxc, it)
+            for meth in ("try_parse_with", "try_check_with"):
+                tr = world.tree(im.methods[meth])
+                nf = [e for e in classes.events(tr) if e[2][0] == "NFMATCH"]
+                want_nf = kind in ("N", "S", "X")
+                if bool(nf) != want_nf:
+                    rk.violate(key + "::" + meth, "%s rule %s trailing WHITESPACE/COMMENT before EOI" % (
+                        {"N": "normal", "S": "silent", "X": "non-atomic", "A": "atomic", "C": "compound-atomic"}[kind],
+                        "does not skip" if want_nf else "skips"), im.loc)
+                else:
+                    rk.inst(key + "::" + meth, im.loc, "ok", nontrivial=False)
+                    if nf and nf[0][2][1][0] != world.ev.render(fxc, al["alias_of"], {}):
+                        rs.violate(key + "::" + meth, "wrapper skips %s, not generics::Skipped" % nf[0][2][1][0], im.loc)
+            consts = [a for kind_, a in im.self_adt()[1] if kind_ == "c"]
+            if consts != ["1"]:
+                rk.violate(key + ": entry", "ParsableTypedNode implemented for %s, expected <'i, 1>" % im.self_ty, im.loc)
+    rc.note("%d skip / reference positions inspected" % n_pos)
+    floor = 200 if unit == "fx_kinds2" else 1500
+    rc.require(floor, "rules")
+    rs.require(100 if unit == "fx_kinds2" else 500, "grammars")
+    rk.require(2 * floor, "wrapper functions")
